@@ -60,7 +60,7 @@ type c02Harness struct {
 	obsCount     map[uint64]int          // nonce -> attestations that became observed since the last override
 	dep          int                     // index of the bridge deployment id installed by the last activation
 	cids         map[string]int          // claim identity (all fields) -> number used on the protocol line
-	acceptedBy   map[string]map[int]bool // claim identity -> validators whose vote for exactly that claim was accepted
+	acceptedBy   map[string]map[int]bool // claim identity -> validators that THEMSELVES sent (authenticated creator = the validator's own account) an accepted vote for exactly that claim
 	executedTx   map[int]bool            // transfers of batches whose executed-batch claim took effect
 }
 
@@ -201,18 +201,23 @@ func TestC02(t *testing.T) {
 
 const c02OtherToken = "0x2000000000000000000000000000000000000009" // unregistered: no denom, no batches
 
+// the contract light-node sales are reported from. The keeper fixture has no paloma keeper behind the sale
+// handler and no sale contract on record for the chain: a sale claim is voted, tallied and observed like any
+// other claim, its handler applies nothing (Props/C02.md, "Light-node sales").
+const c02SaleContract = "0x9E1BDB7D24D4Ca3cB8b0c8e8f4A6d3f2B1c0A9E8"
+
 var c02Senders = []string{"0x00000000000000000000000000000000000000bb", "0x00000000000000000000000000000000000000cc"}
 
 // c02Event is one claim about a remote-chain event as a validator reports it. EVERY field is part of the
 // claim's identity (`key`), whatever the implementation's ClaimHash covers.
 type c02Event struct {
-	kind     string // "dep": MsgSendToPalomaClaim, "exec": MsgBatchSendToRemoteClaim
+	kind     string // "dep": MsgSendToPalomaClaim, "exec": MsgBatchSendToRemoteClaim, "ln": MsgLightNodeSaleClaim
 	n, eth   uint64
-	token    string
+	token    string // dep / exec: the token contract; ln: the sale contract the event was seen on
 	compass  int
-	amount   int64  // dep
+	amount   int64  // dep, ln
 	sender   string // dep
-	receiver int    // dep: user index
+	receiver int    // dep: user index of the receiver; ln: of the client the licence is sold to
 	batch    uint64 // exec: batch nonce
 }
 
@@ -233,6 +238,14 @@ func (c *c02Harness) eventOf(claim skytypes.EthereumClaim) c02Event {
 		return c02Event{kind: "dep", n: m.SkywayNonce, eth: m.EthBlockHeight, token: m.TokenContract, compass: c02CompassIndex(m.CompassId), amount: m.Amount.Int64(), sender: m.EthereumSender, receiver: recv}
 	case *skytypes.MsgBatchSendToRemoteClaim:
 		return c02Event{kind: "exec", n: m.SkywayNonce, eth: m.EthBlockHeight, token: m.TokenContract, compass: c02CompassIndex(m.CompassId), batch: m.BatchNonce}
+	case *skytypes.MsgLightNodeSaleClaim:
+		cl := 0
+		for i, u := range c.e.users {
+			if u.String() == m.ClientAddress {
+				cl = i
+			}
+		}
+		return c02Event{kind: "ln", n: m.SkywayNonce, eth: m.EthBlockHeight, token: m.SmartContractAddress, compass: c02CompassIndex(m.CompassId), amount: m.Amount.Int64(), receiver: cl}
 	}
 	c.r.t.Fatalf("C02: unexpected claim type %T", claim)
 	return c02Event{}
@@ -242,15 +255,89 @@ func (c *c02Harness) eventOf(claim skytypes.EthereumClaim) c02Event {
 // the two differ on a real chain, so they differ here - a keeper that reads the wrong one orders claims wrongly
 func c02EventNonce(skywayNonce uint64) uint64 { return 3*skywayNonce + 1000 }
 
-func (c *c02Harness) msgOf(ev c02Event, orch sdk.AccAddress) sdk.Msg {
+// msgOf builds the claim message for event ev as the account `creator` gets it delivered (Metadata.Creator /
+// Signers: what the ante handler authenticated), naming `orch` in the body's Orchestrator field. An honest
+// validator names itself; nothing but the handler stops anybody from naming somebody else.
+func (c *c02Harness) msgOf(ev c02Event, creator, orch sdk.AccAddress) sdk.Msg {
 	e := c.e
-	if ev.kind == "exec" {
+	switch ev.kind {
+	case "exec":
 		return &skytypes.MsgBatchSendToRemoteClaim{EventNonce: c02EventNonce(ev.n), EthBlockHeight: ev.eth, BatchNonce: ev.batch, TokenContract: ev.token,
-			ChainReferenceId: skyChain, Orchestrator: orch.String(), Metadata: e.meta(orch), SkywayNonce: ev.n, CompassId: c02Compass(ev.compass)}
+			ChainReferenceId: skyChain, Orchestrator: orch.String(), Metadata: e.meta(creator), SkywayNonce: ev.n, CompassId: c02Compass(ev.compass)}
+	case "ln":
+		return &skytypes.MsgLightNodeSaleClaim{EventNonce: c02EventNonce(ev.n), EthBlockHeight: ev.eth, ClientAddress: e.users[ev.receiver].String(),
+			Amount: sdkmath.NewInt(ev.amount), SmartContractAddress: ev.token,
+			ChainReferenceId: skyChain, Orchestrator: orch.String(), Metadata: e.meta(creator), SkywayNonce: ev.n, CompassId: c02Compass(ev.compass)}
 	}
 	return &skytypes.MsgSendToPalomaClaim{EventNonce: c02EventNonce(ev.n), EthBlockHeight: ev.eth, TokenContract: ev.token,
 		Amount: sdkmath.NewInt(ev.amount), EthereumSender: ev.sender,
-		PalomaReceiver: e.users[ev.receiver].String(), Orchestrator: orch.String(), ChainReferenceId: skyChain, Metadata: e.meta(orch), SkywayNonce: ev.n, CompassId: c02Compass(ev.compass)}
+		PalomaReceiver: e.users[ev.receiver].String(), Orchestrator: orch.String(), ChainReferenceId: skyChain, Metadata: e.meta(creator), SkywayNonce: ev.n, CompassId: c02Compass(ev.compass)}
+}
+
+// Accounts on the protocol line: validator k (1-based) has account k - its orchestrator account is the account
+// with the bytes of its operator address; 11, 12, ... are the fixture's user accounts, which are no validators.
+const c02UserAcct = 11
+
+func (c *c02Harness) acctAddr(a int) sdk.AccAddress {
+	if a >= c02UserAcct {
+		return c.e.users[a-c02UserAcct]
+	}
+	return c.e.orch(a - 1)
+}
+
+// c02VoteView is what a claim message may change in the name of a validator: its entries in the vote lists
+// and its last-voted-nonce record.
+type c02VoteView struct {
+	votes  map[string]bool // "<nonce>/<hash>/<validator>"
+	nonces []uint64
+}
+
+func (c *c02Harness) voteView() c02VoteView {
+	v := c02VoteView{votes: map[string]bool{}}
+	for _, a := range c.atts() {
+		for _, w := range a.votes {
+			v.votes[fmt.Sprintf("%d/%s/%d", a.nonce, a.hash, w)] = true
+		}
+	}
+	for _, val := range skykeeper.ValAddrs {
+		n, err := c.e.raw.GetLastSkywayNonceByValidator(c.e.ctx, val, skyChain)
+		if err != nil {
+			c.r.t.Fatal(err)
+		}
+		v.nonces = append(v.nonces, n)
+	}
+	return v
+}
+
+// vote_cast_by_validator_itself ("validators ... have EACH voted"): a claim message delivered for account C
+// records a vote of - and moves the voting record of - no validator but the one whose own account C is. The
+// Orchestrator field of the body is text chosen by the sender: it gives nobody a vote.
+func (c *c02Harness) checkCastBy(before c02VoteView, creator int, op string) {
+	after := c.voteView()
+	var keys []string
+	for k := range after.votes {
+		if !before.votes[k] {
+			keys = append(keys, k)
+		}
+	}
+	sort.Strings(keys)
+	for _, k := range keys {
+		var n uint64
+		var h string
+		var w int
+		parts := strings.Split(k, "/")
+		fmt.Sscan(parts[0], &n)
+		h = parts[1]
+		fmt.Sscan(parts[2], &w)
+		if w != creator {
+			c.r.Hit("vote_cast_by_validator_itself", fmt.Sprintf("a claim message delivered for account %d recorded a vote of validator %d (which sent nothing) for claim %d/%s after `%s`", creator, w, n, h, op), c.replay())
+		}
+	}
+	for i := range after.nonces {
+		if after.nonces[i] != before.nonces[i] && i+1 != creator {
+			c.r.Hit("vote_cast_by_validator_itself", fmt.Sprintf("a claim message delivered for account %d moved the voting record of validator %d from nonce %d to %d after `%s`", creator, i+1, before.nonces[i], after.nonces[i], op), c.replay())
+		}
+	}
 }
 
 // c02Batch is the harness's own record of an open batch (the reference the monitors decide against).
@@ -354,11 +441,57 @@ func runC02Case(t *testing.T, r *Rec, nops int, caseNo int) {
 				}
 			}
 		}
+		if ev.kind == "dep" && r.Rng.Intn(6) == 0 {
+			ev.kind, ev.sender, ev.token = "ln", "", c02SaleContract
+			ev.amount = 1000 + int64(n)
+			ev.receiver = r.Rng.Intn(len(e.users))
+		}
+		evOf[n] = ev
+		return ev
+	}
+	// forcedEvent: the honest event at nonce n is of the given claim type (unless the nonce has its event already)
+	forcedEvent := func(n uint64, kind string) c02Event {
+		if ev, ok := evOf[n]; ok {
+			return ev
+		}
+		ev := c02Event{kind: "dep", n: n, eth: ethBase + 10*n, token: e.erc20[0], compass: c.dep, amount: 100 + int64(n), sender: c02Senders[0]}
+		switch kind {
+		case "exec":
+			ev.kind, ev.amount, ev.sender, ev.batch = "exec", 0, "", 1
+			if open := c.openBatches(); len(open) > 0 {
+				ev.batch = open[r.Rng.Intn(len(open))].id
+			}
+		case "ln":
+			ev.kind, ev.sender, ev.token = "ln", "", c02SaleContract
+			ev.amount = 1000 + int64(n)
+			ev.receiver = r.Rng.Intn(len(e.users))
+		}
 		evOf[n] = ev
 		return ev
 	}
 	mutate := func(ev c02Event) c02Event {
 		fields := 6
+		if ev.kind == "ln" {
+			// compass, contract, height, amount, client: the fields of a sale claim
+			switch r.Rng.Intn(5) {
+			case 0:
+				ev.compass = 1 + (ev.compass+r.Rng.Intn(2))%3
+				r.Stat("vote.differs_in.compass")
+			case 1:
+				ev.token = c02OtherToken
+				r.Stat("vote.differs_in.sale_contract")
+			case 2:
+				ev.eth += 1 + uint64(r.Rng.Intn(3))
+				r.Stat("vote.differs_in.height")
+			case 3:
+				ev.amount += 100 * int64(1+r.Rng.Intn(2))
+				r.Stat("vote.differs_in.amount")
+			default:
+				ev.receiver = 1 - ev.receiver
+				r.Stat("vote.differs_in.client")
+			}
+			return ev
+		}
 		switch r.Rng.Intn(fields) {
 		case 0:
 			ev.compass = 1 + (ev.compass+r.Rng.Intn(2))%3
@@ -397,8 +530,10 @@ func runC02Case(t *testing.T, r *Rec, nops int, caseNo int) {
 		return ev
 	}
 
-	doVote := func(v int, ev c02Event) string {
-		m := c.msgOf(ev, e.orch(v))
+	// doVoteAs: the claim message for ev is delivered for account `creator` and names account `orch` as
+	// orchestrator (accounts as on the protocol line: validator k = k, users from c02UserAcct)
+	doVoteAs := func(creator, orch int, ev c02Event) string {
+		m := c.msgOf(ev, c.acctAddr(creator), c.acctAddr(orch))
 		h, _ := m.(skytypes.EthereumClaim).ClaimHash()
 		hs := new(big.Int).SetBytes(h).String()
 		key := ev.key()
@@ -413,7 +548,9 @@ func runC02Case(t *testing.T, r *Rec, nops int, caseNo int) {
 			if !strings.EqualFold(ev.token, e.erc20[0]) {
 				id = 0 // batches are keyed by (token, nonce): a claim naming another token names no batch of ours
 			}
-			op = fmt.Sprintf("votex %d %d %s %d %d %d %d", v+1, ev.n, hs, ev.eth, id, ev.compass, cid)
+			op = fmt.Sprintf("votex %d %d %d %s %d %d %d %d", creator, orch, ev.n, hs, ev.eth, id, ev.compass, cid)
+		} else if ev.kind == "ln" {
+			op = fmt.Sprintf("votel %d %d %d %s %d 0 %d %d", creator, orch, ev.n, hs, ev.eth, ev.compass, cid)
 		} else {
 			appl := 1
 			if !strings.EqualFold(ev.token, e.erc20[0]) {
@@ -421,8 +558,9 @@ func runC02Case(t *testing.T, r *Rec, nops int, caseNo int) {
 			} else {
 				c.claimAmt[fmt.Sprintf("%d/%s", ev.n, key)] = ev.amount
 			}
-			op = fmt.Sprintf("vote %d %d %s %d %d %d %d %d", v+1, ev.n, hs, ev.eth, appl, ev.amount, ev.compass, cid)
+			op = fmt.Sprintf("vote %d %d %d %s %d %d %d %d %d", creator, orch, ev.n, hs, ev.eth, appl, ev.amount, ev.compass, cid)
 		}
+		view := c.voteView()
 		res := e.runMsg(func(ctx sdk.Context) error {
 			switch mm := m.(type) {
 			case *skytypes.MsgSendToPalomaClaim:
@@ -431,20 +569,60 @@ func runC02Case(t *testing.T, r *Rec, nops int, caseNo int) {
 			case *skytypes.MsgBatchSendToRemoteClaim:
 				_, err := e.ms.BatchSendToRemoteClaim(ctx, mm)
 				return err
+			case *skytypes.MsgLightNodeSaleClaim:
+				_, err := e.ms.LightNodeSaleClaim(ctx, mm)
+				return err
 			}
 			return fmt.Errorf("unknown claim")
 		})
-		if res == "ok" {
+		if res == "ok" && creator <= nv {
+			// validator `creator` itself sent a vote for exactly this claim, and it was accepted
 			if c.acceptedBy[key] == nil {
 				c.acceptedBy[key] = map[int]bool{}
 			}
-			c.acceptedBy[key][v+1] = true
+			c.acceptedBy[key][creator] = true
 		}
 		c.emit(op, res+" "+c.state())
 		r.Stat("vote." + ev.kind + "." + res)
+		switch {
+		case creator == orch && creator <= nv:
+			r.Stat("vote.sent_by.the_validator_itself")
+		case creator == orch:
+			r.Stat("vote.sent_by.a_non_validator_for_itself")
+		case orch > nv:
+			r.Stat("vote.sent_by.a_validator_naming_a_non_validator")
+		case creator <= nv:
+			r.Stat("vote.sent_by.another_validator." + ev.kind)
+		default:
+			r.Stat("vote.sent_by.a_non_validator_naming_a_validator." + ev.kind)
+		}
+		c.checkCastBy(view, creator, op)
 		c.checkVotes(op)
 		c.checkGap(op)
 		return res
+	}
+	doVote := func(v int, ev c02Event) string { return doVoteAs(v+1, v+1, ev) }
+	// somebody else than validator v sends the claim in v's name: a user account or another validator
+	foreignSender := func(v int) int {
+		if r.Rng.Intn(2) == 0 {
+			return c02UserAcct + r.Rng.Intn(len(e.users))
+		}
+		return 1 + (v+1+r.Rng.Intn(nv-1))%nv
+	}
+	// impersonation: ONE account delivers the claim for event ev once per validator, naming each of them as
+	// orchestrator in turn - the votes of a quorum, cast by somebody who holds none of their keys
+	doImpersonate := func(ev c02Event) {
+		sender := foreignSender(r.Rng.Intn(nv))
+		for v := 0; v < nv; v++ {
+			if v+1 == sender || r.Rng.Intn(8) == 0 {
+				continue
+			}
+			vl, _ := e.raw.GetLastSkywayNonceByValidator(e.ctx, skykeeper.ValAddrs[v], skyChain)
+			if vl+1 == ev.n {
+				doVoteAs(sender, v+1, ev)
+			}
+		}
+		r.Stat("op.impersonation_burst." + ev.kind)
 	}
 
 	doSend := func() {
@@ -653,13 +831,14 @@ func runC02Case(t *testing.T, r *Rec, nops int, caseNo int) {
 					r.Hit("observed_has_quorum", fmt.Sprintf("attestation %d observed with %d of %d power after `%s`", a.nonce, sum, total, op), c.replay())
 				}
 				// "have each voted for that identical claim": the claim that takes effect is the stored one; a
-				// validator counts towards it only if it submitted a claim equal to it in EVERY field
+				// validator counts towards it only if it - a message delivered for its own account - submitted a
+				// claim equal to it in EVERY field
 				same := int64(0)
 				for v := range set {
 					if c.acceptedBy[a.ev.key()][v] {
 						same += powers[v-1]
 					} else {
-						r.Hit("counted_votes_are_for_identical_claim", fmt.Sprintf("validator %d is counted for the claim observed at nonce %d (%s) but never voted for that claim after `%s`", v, a.nonce, a.ev.key(), op), c.replay())
+						r.Hit("counted_votes_are_for_identical_claim", fmt.Sprintf("validator %d is counted for the claim observed at nonce %d (%s) but never itself sent a vote for that claim after `%s`", v, a.nonce, a.ev.key(), op), c.replay())
 					}
 				}
 				if !(100*same > 66*total) {
@@ -680,7 +859,7 @@ func runC02Case(t *testing.T, r *Rec, nops int, caseNo int) {
 				c.obsCount[a.nonce]++
 				if a.ev.kind == "dep" {
 					minted += c.claimAmt[fmt.Sprintf("%d/%s", a.nonce, a.ev.key())]
-				} else if strings.EqualFold(a.ev.token, e.erc20[0]) {
+				} else if a.ev.kind == "exec" && strings.EqualFold(a.ev.token, e.erc20[0]) {
 					// an executed-batch claim CAN be applied iff its batch is open when the claim takes effect
 					// and the claim's remote height lies before the batch timeout; then it MUST be: vouchers
 					// burned, batch gone for good, its transfers neither in the pool nor in another batch
@@ -738,6 +917,27 @@ func runC02Case(t *testing.T, r *Rec, nops int, caseNo int) {
 		doEndBlock(r.Rng.Intn(4), false)
 		r.Stat("case.directed_opening")
 	}
+	// directed opening (the next case in three): the claim of the next event - of each of the three claim types -
+	// is delivered for ONE account (a user, or one validator) once per validator, naming each of them as
+	// orchestrator; the tally; then (most of) the validators send the claim themselves; the tally
+	if caseNo%3 == 1 {
+		kind := []string{"dep", "exec", "ln"}[r.Rng.Intn(3)]
+		if kind == "exec" {
+			doSend()
+			doBuild()
+		}
+		last, _ := e.raw.GetLastObservedSkywayNonce(e.ctx, skyChain)
+		ev := forcedEvent(last+1, kind)
+		doImpersonate(ev)
+		doEndBlock(0, false)
+		for v := 0; v < nv; v++ {
+			if r.Rng.Intn(5) != 0 {
+				doVote(v, ev)
+			}
+		}
+		doEndBlock(0, false)
+		r.Stat("case.directed_impersonation." + kind)
+	}
 
 	for i := 0; i < nops; i++ {
 		x := r.Rng.Intn(100)
@@ -768,7 +968,21 @@ func runC02Case(t *testing.T, r *Rec, nops int, caseNo int) {
 			if ev.compass != c.dep {
 				r.Stat("vote.other_deployment")
 			}
-			doVote(v, ev)
+			// who delivers the message, and whom it names: mostly the validator itself
+			switch r.Rng.Intn(16) {
+			case 0, 1: // somebody else - a user account or another validator - names validator v
+				doVoteAs(foreignSender(v), v+1, ev)
+			case 2: // validator v names an account that is no validator
+				doVoteAs(v+1, c02UserAcct+r.Rng.Intn(len(e.users)), ev)
+			case 3: // an account that is no validator votes in its own name
+				u := c02UserAcct + r.Rng.Intn(len(e.users))
+				doVoteAs(u, u, ev)
+			case 4: // one account delivers the votes of everybody for the next event in line
+				lo, _ := e.raw.GetLastObservedSkywayNonce(e.ctx, skyChain)
+				doImpersonate(baseEvent(lo + 1))
+			default:
+				doVote(v, ev)
+			}
 		case x < 80: // end of block: tally with a fresh power table
 			tm := 0
 			if r.Rng.Intn(3) == 0 {
